@@ -353,6 +353,9 @@ func (s *Store) LinkSystem() *ipld.LinkSystem {
 			}
 		}
 		if k, bad := s.Unavailable[c.KeyString()]; bad {
+			if k == 3 {
+				return nil, notFoundFault{FaultErr{k}} // the shape block stores give "I do not have it" (NotFound() bool)
+			}
 			return nil, FaultErr{k}
 		}
 		b, ok := s.Blocks[c.KeyString()]
@@ -511,4 +514,16 @@ type failingWriter struct{ s *Store }
 func (f failingWriter) Write(p []byte) (int, error) {
 	f.s.Events = append(f.s.Events, "failwrite")
 	return 0, f.s.flavored(502)
+}
+
+// notFoundFault is an injected read fault that also answers NotFound() like format.ErrNotFound / blockstore errors
+type notFoundFault struct{ FaultErr }
+
+func (notFoundFault) NotFound() bool { return true }
+func (n notFoundFault) As(target interface{}) bool {
+	if fe, ok := target.(*FaultErr); ok {
+		*fe = n.FaultErr
+		return true
+	}
+	return false
 }
